@@ -730,7 +730,7 @@ func NullOf(kind string) any {
 	return nil
 }
 
-type unencodable struct{ ch chan int }
+type unencodable struct{ Ch chan int } // (the exported channel makes it unencodable for the JSON codecs as well)
 
 func cellValue(c M) any {
 	if v, has := c["_val"]; has {
